@@ -17,6 +17,7 @@ type zzConn struct {
 	out       []*goatorepo.Rpc
 	failWrite error
 	onWrite   func(*goatorepo.Rpc)
+	wch       chan *goatorepo.Rpc // when non-nil, every written envelope is also queued here for the peer script
 }
 
 func newZZConn() *zzConn {
@@ -43,6 +44,9 @@ func (c *zzConn) Write(ctx context.Context, rpc *goatorepo.Rpc) error {
 	c.out = append(c.out, rpc)
 	if c.onWrite != nil {
 		c.onWrite(rpc)
+	}
+	if c.wch != nil {
+		c.wch <- rpc
 	}
 	return nil
 }
